@@ -331,3 +331,584 @@ Section Exec1.
     destruct (Z.leb_spec 0 z); [|lia]. destruct (Z.leb_spec z dlen); [|lia]. reflexivity.
   Qed.
 End Exec1.
+
+(* ---------------------------------------------------------------- typed values of a varint / fixed read *)
+Definition is_int (t : gty) : bool := match gty_int t with Some _ => true | None => false end.
+Definition vint (t : gty) (raw : N) : Z := match gty_int t with Some (w, sg) => of_pat w sg raw | None => 0 end.
+Lemma vint_U64 raw : vint GU64 raw = Z.of_N (u64 raw). Proof. reflexivity. Qed.
+Lemma vint_U32 raw : vint GU32 raw = Z.of_N (u32 raw). Proof. reflexivity. Qed.
+Lemma vint_I64 raw : vint GI64 raw = s64 raw. Proof. apply of_pat_64s. Qed.
+Lemma vint_Int raw : vint GInt raw = s64 raw. Proof. apply of_pat_64s. Qed.
+Lemma vint_I32 raw : vint GI32 raw = s32 raw. Proof. apply of_pat_32s. Qed.
+Lemma vint_Enum raw : vint GEnum raw = s32 raw. Proof. apply of_pat_32s. Qed.
+
+Lemma gty_int_w t w sg : gty_int t = Some (w, sg) -> w = 64%N \/ w = 32%N.
+Proof. destruct t; cbn; intro H; inversion H; auto. Qed.
+
+Lemma to_pat_ofN w x : to_pat w (Z.of_N x) = (x mod pow2 w)%N.
+Proof. unfold to_pat. rewrite <- N2Z.inj_mod. apply N2Z.id. Qed.
+Lemma gconv_ofN w sg x : w = 64%N \/ w = 32%N -> gconv w sg (Z.of_N x) = of_pat w sg x.
+Proof. intro Hw. unfold gconv. rewrite to_pat_ofN. apply of_pat_mod. exact Hw. Qed.
+Lemma gconv_vint t w sg x : gty_int t = Some (w, sg) -> gconv w sg (Z.of_N x) = vint t x.
+Proof. intro H. unfold vint. rewrite H. apply gconv_ofN. eapply gty_int_w. exact H. Qed.
+
+Lemma s64_u64 x : s64 (u64 x) = s64 x.
+Proof. unfold s64, u64. rewrite N.mod_mod by discriminate. reflexivity. Qed.
+Lemma s32_u32 x : s32 (u32 x) = s32 x.
+Proof. unfold s32, u32. rewrite N.mod_mod by discriminate. reflexivity. Qed.
+Lemma u64_u64 x : u64 (u64 x) = u64 x.
+Proof. unfold u64. rewrite N.mod_mod by discriminate. reflexivity. Qed.
+Lemma u64_lt x : (u64 x < two64)%N.
+Proof. unfold u64. apply N.mod_upper_bound. discriminate. Qed.
+Lemma u64_small x : (x < two64)%N -> u64 x = x.
+Proof. intro H. unfold u64. apply N.mod_small. exact H. Qed.
+Lemma u32_small x : (x < two32)%N -> u32 x = x.
+Proof. intro H. unfold u32. apply N.mod_small. exact H. Qed.
+
+Lemma s64_eq0 x : (s64 x =? 0) = (u64 x =? 0)%N.
+Proof.
+  unfold s64, u64. pose proof (N.mod_upper_bound x two64 ltac:(discriminate)) as H. set (y := (x mod two64)%N) in *.
+  destruct (N.ltb_spec y two63); destruct (N.eqb_spec y 0); destruct (Z.eqb_spec (Z.of_N y) 0);
+    destruct (Z.eqb_spec (Z.of_N y - Z.of_N two64) 0); try reflexivity; unfold two63, two64 in *; lia.
+Qed.
+
+Lemma z2u32_s32 x : z2u32 (s32 x) = u32 x.
+Proof. rewrite <- of_pat_32s. change (z2u32 (of_pat 32 true x)) with (to_pat 32 (of_pat 32 true x)). rewrite to_pat_of_pat by auto. reflexivity. Qed.
+Lemma z2u64_ofN x : z2u64 (Z.of_N x) = u64 x.
+Proof. change (z2u64 (Z.of_N x)) with (to_pat 64 (Z.of_N x)). rewrite to_pat_ofN. reflexivity. Qed.
+
+Lemma fieldnum_val a : gconv 32 true (Z.shiftr (Z.of_N a) (Z.of_N 3)) = s32 (a / 8).
+Proof.
+  rewrite Z.shiftr_div_pow2 by lia. change (2 ^ Z.of_N 3) with (Z.of_N 8). rewrite <- N2Z.inj_div.
+  rewrite gconv_ofN by auto. apply of_pat_32s.
+Qed.
+Lemma wiretype_val a : gconv 64 true (Z.land (Z.of_N a) 7) = Z.of_N (a mod 8).
+Proof.
+  change 7 with (Z.ones 3). rewrite Z.land_ones by lia. change (2 ^ 3) with (Z.of_N 8). rewrite <- N2Z.inj_mod.
+  rewrite gconv_ofN by auto. rewrite of_pat_64s. apply s64_small.
+  pose proof (N.mod_upper_bound a 8 ltac:(discriminate)). unfold two63. lia.
+Qed.
+Lemma gconv_wrap64 z : gconv 64 true z = wrap64 z.
+Proof. unfold gconv, wrap64. rewrite of_pat_64s. reflexivity. Qed.
+
+Lemma zero_of_kind k : zero_of (kind_gty k) = zero_scalar k.
+Proof. destruct k; reflexivity. Qed.
+
+Section Exec2.
+  Variable sch : schema.
+  Variable discard : bool.
+  Variable child : child_t.
+  Variable depth : Z.
+  Variable fs : list field.
+  Variable data : list byte.
+  Variable lfuel : nat.
+  Notation dlen := (Z.of_nat (length data)).
+  Hypothesis Hlen : dlen < Z.of_N two63.
+
+  Notation exec' := (exec sch discard child depth fs data dlen lfuel).
+  Notation run' := (run_block sch discard child depth fs data dlen lfuel).
+  Notation cond' := (cond sch discard depth fs data dlen).
+  Notation eval' := (eval sch fs data dlen).
+  Notation eval_int' := (eval_int sch fs data dlen).
+  Notation atom' := (exec_atom sch child fs data dlen).
+  Notation block' := (block sch discard child depth fs data dlen lfuel).
+  Notation for_loop' := (for_loop sch discard child depth fs data dlen lfuel).
+  Notation sfx' := (sfx data).
+  Notation at_ z ss u := {| us_idx := z; us_rest := sfx data z; us_slots := ss; us_unk := u |}.
+
+  Lemma run_nil en st : run' [] en st = XNext en st.
+  Proof. reflexivity. Qed.
+
+  Lemma run_varint_var x t b en z ss u :
+    var_int x en = EOk 0 -> is_int t = true -> 0 <= z <= dlen ->
+    run' (UsVarint (TgVar x) t :: b) en (at_ z ss u) =
+    match dec_varint (sfx' z) with
+    | None => XDone Err
+    | Some (raw, m, _) =>
+      match env_set x (LV (VInt (vint t raw))) en with
+      | Some en' => run' b en' (at_ (z + Z.of_nat m) ss u)
+      | None => XStuck
+      end
+    end.
+  Proof.
+    intros Hx Ht Hz. rewrite run_atom by reflexivity. cbn [exec_atom]. unfold is_int, vint in *.
+    destruct (gty_int t) as [[w sg]|] eqn:Eg; [|discriminate]. pose proof (gty_int_w _ _ _ Eg) as Hw.
+    rewrite Hx. cbn [xlift us_idx us_rest us_slots us_unk].
+    rewrite (varint_loop_spec w sg dlen Hw Hlen 10 0%N 0%N 0%nat (sfx' z) 0 z); try lia.
+    - fold (dec_varint (sfx' z)). destruct (dec_varint (sfx' z)) as [[[raw m] r]|] eqn:Ed; [|reflexivity].
+      destruct (dec_varint_sfx data z raw m r Hz Ed) as (-> & _ & _). rewrite Nat.sub_0_r.
+      destruct (env_set x _ en); reflexivity.
+    - destruct Hw as [-> | ->]; reflexivity.
+    - rewrite sfx_len by lia. lia.
+  Qed.
+
+  Lemma run_varint_field i t b en z ss u f :
+    plain_field fs i = Some f -> nth_error ss i = Some (VInt 0) -> is_int t = true -> 0 <= z <= dlen ->
+    run' (UsVarint (TgField i) t :: b) en (at_ z ss u) =
+    match dec_varint (sfx' z) with
+    | None => XDone Err
+    | Some (raw, m, _) => run' b en (at_ (z + Z.of_nat m) (set_nth ss i (VInt (vint t raw))) u)
+    end.
+  Proof.
+    intros Hf Hs Ht Hz. rewrite run_atom by reflexivity. cbn [exec_atom]. unfold is_int, vint in *.
+    destruct (gty_int t) as [[w sg]|] eqn:Eg; [|discriminate]. pose proof (gty_int_w _ _ _ Eg) as Hw.
+    rewrite Hf. unfold slot. cbn [us_idx us_rest us_slots us_unk]. rewrite Hs.
+    rewrite (varint_loop_spec w sg dlen Hw Hlen 10 0%N 0%N 0%nat (sfx' z) 0 z); try lia.
+    - fold (dec_varint (sfx' z)). destruct (dec_varint (sfx' z)) as [[[raw m] r]|] eqn:Ed; [|reflexivity].
+      destruct (dec_varint_sfx data z raw m r Hz Ed) as (-> & _ & _). rewrite Nat.sub_0_r. reflexivity.
+    - destruct Hw as [-> | ->]; reflexivity.
+    - rewrite sfx_len by lia. lia.
+  Qed.
+
+  Lemma run_idxset e b en z ss u z' :
+    eval_int' e en (at_ z ss u) = EOk z' -> 0 <= z <= dlen -> 0 <= z' <= dlen ->
+    run' (UsIdxSet e :: b) en (at_ z ss u) = run' b en (at_ z' ss u).
+  Proof.
+    intros He Hz Hz'. rewrite run_atom by reflexivity. cbn [exec_atom]. rewrite He. cbn [xlift].
+    rewrite set_idx_at by assumption. reflexivity.
+  Qed.
+
+  Lemma run_idxadd e b en z ss u k :
+    eval_int' e en (at_ z ss u) = EOk k -> 0 <= z <= dlen -> 0 <= z + k <= dlen ->
+    run' (UsIdxAdd e :: b) en (at_ z ss u) = run' b en (at_ (z + k) ss u).
+  Proof.
+    intros He Hz Hz'. rewrite run_atom by reflexivity. cbn [exec_atom]. rewrite He. cbn [xlift us_idx].
+    rewrite wrap64_small by lia. rewrite set_idx_at by assumption. reflexivity.
+  Qed.
+
+  (* if len < 0 {…}; post := iNdEx + len; if post < 0 {…}; if post > limit {…} *)
+  Lemma uvar_eqb_refl x : uvar_eqb x x = true.
+  Proof. unfold uvar_eqb. apply Nat.eqb_refl. Qed.
+
+  Lemma run_lencheck len post limit b en z ss u L lim :
+    eval_int' len en (at_ z ss u) = EOk L ->
+    (forall v, eval_int' limit ((post, v) :: en) (at_ z ss u) = EOk lim) ->
+    - Z.of_N two63 <= L < Z.of_N two63 -> 0 <= z <= lim -> lim <= dlen ->
+    run' (u_lencheck len post limit ++ b) en (at_ z ss u) =
+    if L <? 0 then XDone Err
+    else if lim - z <? L then XDone Err
+    else run' b ((post, LV (VInt (z + L))) :: en) (at_ z ss u).
+  Proof.
+    intros He Hlim HL Hz Hl. unfold u_lencheck. cbn [app].
+    rewrite run_if_ret by discriminate. cbn [cond]. rewrite He. unfold eval_int at 1. cbn [ebind eval as_int cmp_z xlift].
+    destruct (Z.ltb_spec L 0); [reflexivity|].
+    rewrite run_atom by reflexivity. cbn [exec_atom eval]. change (as_int (eval' len en (at_ z ss u))) with (eval_int' len en (at_ z ss u)).
+    rewrite He. cbn [ebind eval as_int xlift us_idx].
+    assert (Hp : forall v, eval_int' (u_v post) ((post, LV (VInt v)) :: en) (at_ z ss u) = EOk v).
+    { intro v. unfold eval_int, u_v. cbn [eval env_get]. rewrite uvar_eqb_refl. reflexivity. }
+    rewrite run_if_ret by discriminate. cbn [cond]. rewrite Hp. unfold eval_int at 1. cbn [ebind eval as_int cmp_z xlift].
+    destruct (Z.ltb_spec (z + L) (Z.of_N two63)) as [Hs|Hs].
+    - rewrite wrap64_small by lia. destruct (Z.ltb_spec (z + L) 0); [lia|].
+      rewrite run_if_ret by discriminate. cbn [cond]. rewrite Hp, Hlim.
+      cbn [ebind cmp_z xlift]. destruct (Z.ltb_spec lim (z + L)); destruct (Z.ltb_spec (lim - z) L); try lia; reflexivity.
+    - pose proof (wrap64_big_neg (z + L) ltac:(unfold two63, two64 in *; lia)) as Hneg.
+      destruct (Z.ltb_spec (wrap64 (z + L)) 0); [|lia].
+      destruct (Z.ltb_spec (lim - z) L); [reflexivity|lia].
+  Qed.
+End Exec2.
+
+#[export] Hint Rewrite vint_U64 vint_U32 vint_I64 vint_Int vint_I32 vint_Enum s64_u64 s32_u32 u64_u64 fieldnum_val wiretype_val
+  z2u32_s32 z2u64_ofN s64_eq0 : vals.
+#[export] Hint Rewrite gconv_ofN using (auto; fail) : vals.
+#[export] Hint Rewrite of_pat_64s of_pat_32s of_pat_64u of_pat_32u : vals.
+
+Definition putm (fs : list field) (md : imode) (oi i : nat) (v : val) (ss : list val) : list val :=
+  match md with
+  | ISing => set_nth ss i v
+  | IRep => set_nth ss i (list_append (nth i ss VNil) v)
+  | IOneof => set_nth (clear_oneof fs ss oi) i (VSome v)
+  end.
+Definition mode_ok (md : imode) (k : kind) (f : field) (s : val) (oi : nat) : Prop :=
+  match md with
+  | ISing => f_shape f = Singular /\ (k = KBytes -> s = VNil \/ exists b, s = VBytes b)
+  | IRep => (exists p, f_shape f = Rep p) /\ (s = VNil \/ exists l, s = VList l)
+  | IOneof => f_shape f = Member oi
+  end.
+
+Lemma at_eq data en A B S1 S2 u : A = B -> S1 = S2 ->
+  XNext en {| us_idx := A; us_rest := sfx data A; us_slots := S1; us_unk := u |} =
+  XNext en {| us_idx := B; us_rest := sfx data B; us_slots := S2; us_unk := u |}.
+Proof. intros -> ->. reflexivity. Qed.
+
+Ltac ev1 :=
+  cbn [eval as_int ebind var_int env_get env_set uvar_eqb uvar_code b2nat Nat.eqb Nat.add cond cmp_z zero_of
+       gty_int kind_gty lval_val u_v xlift us_idx us_rest us_slots us_unk slot set_slots set_unk u_put u_assign is_nil_val
+       of_outcome leave].
+Ltac ev := ev1; unfold slot, eval_int, set_slots, set_unk; ev1.
+
+Lemma s64_rng x : - Z.of_N two63 <= s64 x < Z.of_N two63.
+Proof. pose proof (s64_range x). unfold two63. lia. Qed.
+
+Ltac zl := unfold two63, two64 in *; lia.
+
+Ltac hyps :=
+  repeat match goal with
+         | H : plain_field ?fs ?i = _ |- context [plain_field ?fs ?i] => rewrite H
+         | H : nth_error ?ss ?i = _ |- context [nth_error ?ss ?i] => rewrite H
+         | H : f_shape ?f = _ |- context [f_shape ?f] => rewrite H
+         | H : f_ty ?f = _ |- context [f_ty ?f] => rewrite H
+         | |- context [nth_error (set_nth ?ss ?i ?v) ?i] => rewrite (nth_error_set_nth ss i v) by lia
+         end.
+
+Ltac atom :=
+  lazymatch goal with
+  | |- context [run_block ?a1 ?a2 ?a3 ?a4 ?a5 ?a6 ?a7 ?a8 (?s :: ?b) ?en ?st] =>
+    rewrite (run_atom a1 a2 a3 a4 a5 a6 a8 s b en st) by reflexivity; unfold exec_atom; cbv beta iota; ev; hyps; ev
+  end.
+
+Ltac ifret :=
+  lazymatch goal with
+  | |- context [run_block ?a1 ?a2 ?a3 ?a4 ?a5 ?a6 ?a7 ?a8 (UsIf ?c (u_ret ?e) :: ?b) ?en ?st] =>
+    rewrite (run_if_ret a1 a2 a3 a4 a5 a6 a8 c e b en st) by discriminate; ev
+  end.
+
+Ltac side := first [eassumption | reflexivity | (intro; reflexivity) | apply s64_rng | lia | zl | (apply nth_error_set_nth; lia)].
+Ltac idxset := erewrite run_idxset; [|side ..].
+Ltac idxadd := erewrite run_idxadd; [|side ..].
+Ltac lencheck := erewrite run_lencheck; [|side ..].
+Ltac feq := repeat lazymatch goal with
+  | |- @eq Z _ _ => fail
+  | |- @eq nat _ _ => fail
+  | |- @eq N _ _ => fail
+  | |- _ => progress f_equal end.
+Ltac modes md Hm Hf fs i f :=
+  let Hsh := fresh "Hsh" in let Hx := fresh "Hx" in let Hpf := fresh "Hpf" in let p := fresh "p" in let l := fresh "l" in
+  destruct md; cbn [mode_ok] in Hm;
+  [ rename Hm into Hsh | destruct Hm as [[p Hsh] [-> | [l ->]]] | destruct Hm as [Hsh Hx] ];
+  try (assert (Hpf : plain_field fs i = Some f) by (unfold plain_field; rewrite Hf, Hsh; reflexivity)).
+Ltac done_env :=
+  cbn [run_block leave]; repeat (rewrite env_restore_cons by (cbn [length]; lia)); rewrite ?env_restore_refl.
+
+Ltac fin Hs :=
+  done_env; cbn [putm varint_val fixed_val]; rewrite ?sfx_skipn, ?sfx_len by lia; autorewrite with vals;
+  try rewrite (nth_error_nth' _ _ _ VNil Hs); rewrite ?set_nth_set_nth; apply at_eq; [lia|feq; try lia].
+
+Section Exec3.
+  Variable sch : schema.
+  Variable discard : bool.
+  Variable child : child_t.
+  Variable depth : Z.
+  Variable fs : list field.
+  Variable data : list byte.
+  Variable lfuel : nat.
+  Notation dlen := (Z.of_nat (length data)).
+  Hypothesis Hlen : dlen < Z.of_N two63.
+  Hypothesis Hlen8 : dlen + 8 < Z.of_N two63.
+
+  Notation exec' := (exec sch discard child depth fs data dlen lfuel).
+  Notation run' := (run_block sch discard child depth fs data dlen lfuel).
+  Notation cond' := (cond sch discard depth fs data dlen).
+  Notation eval' := (eval sch fs data dlen).
+  Notation eval_int' := (eval_int sch fs data dlen).
+  Notation atom' := (exec_atom sch child fs data dlen).
+  Notation block' := (block sch discard child depth fs data dlen lfuel).
+  Notation for_loop' := (for_loop sch discard child depth fs data dlen lfuel).
+  Notation sfx' := (sfx data).
+  Notation at_ z ss u := {| us_idx := z; us_rest := sfx data z; us_slots := ss; us_unk := u |}.
+
+  Lemma take_fixed_sfx k z : 0 <= z <= dlen ->
+    take_fixed k (sfx' z) = if dlen <? z + Z.of_nat k then None else Some (dec_le (firstn k (sfx' z)), sfx' (z + Z.of_nat k)).
+  Proof.
+    intro Hz. unfold take_fixed. pose proof (sfx_len data z Hz) as Hl.
+    destruct (Nat.ltb_spec (length (sfx' z)) k); destruct (Z.ltb_spec dlen (z + Z.of_nat k)); try lia; [reflexivity|].
+    rewrite sfx_skipn_nat by lia. reflexivity.
+  Qed.
+
+  Lemma run_fixed_var (w8 : bool) x t b en z ss u v0 :
+    is_int t = true -> env_get x en = Some v0 -> 0 <= z <= dlen ->
+    run' ((if w8 then u_fixed64 (TgVar x) t else u_fixed32 (TgVar x) t) ++ b) en (at_ z ss u) =
+    match take_fixed (if w8 then 8 else 4) (sfx' z) with
+    | None => XDone Err
+    | Some (n, _) =>
+      match env_set x (LV (VInt (vint t n))) en with
+      | Some en' => run' b en' (at_ (z + (if w8 then 8 else 4)) ss u)
+      | None => XStuck
+      end
+    end.
+  Proof.
+    intros Ht Hx Hz. unfold is_int in Ht. destruct (gty_int t) as [[w sg]|] eqn:Eg; [|discriminate].
+    pose proof (sfx_len data z Hz) as Hl.
+    destruct w8; unfold u_fixed64, u_fixed32; cbn [app]; rewrite take_fixed_sfx by lia;
+      ifret; rewrite wrap64_small by lia; cbn [Z.of_nat Pos.of_succ_nat Pos.succ].
+    - destruct (Z.ltb_spec dlen (z + 8)); [reflexivity|].
+      atom. rewrite Eg. ev. rewrite slice_from_at by lia. ev.
+      destruct (Nat.ltb_spec (length (sfx' z)) 8); [lia|]. ev. rewrite (gconv_vint t) by exact Eg.
+      destruct (env_set x _ en) as [en'|]; [|reflexivity].
+      idxadd; reflexivity.
+    - destruct (Z.ltb_spec dlen (z + 4)); [reflexivity|].
+      atom. rewrite Eg. ev. rewrite slice_from_at by lia. ev.
+      destruct (Nat.ltb_spec (length (sfx' z)) 4); [lia|]. ev. rewrite (gconv_vint t) by exact Eg.
+      destruct (env_set x _ en) as [en'|]; [|reflexivity].
+      idxadd; reflexivity.
+  Qed.
+
+  Lemma run_fixed_field (w8 : bool) i f s t b en z ss u :
+    is_int t = true -> plain_field fs i = Some f -> nth_error ss i = Some s -> 0 <= z <= dlen ->
+    run' ((if w8 then u_fixed64 (TgField i) t else u_fixed32 (TgField i) t) ++ b) en (at_ z ss u) =
+    match take_fixed (if w8 then 8 else 4) (sfx' z) with
+    | None => XDone Err
+    | Some (n, _) => run' b en (at_ (z + (if w8 then 8 else 4)) (set_nth ss i (VInt (vint t n))) u)
+    end.
+  Proof.
+    intros Ht Hpf Hs Hz. unfold is_int in Ht. destruct (gty_int t) as [[w sg]|] eqn:Eg; [|discriminate].
+    pose proof (sfx_len data z Hz) as Hl.
+    destruct w8; unfold u_fixed64, u_fixed32; cbn [app]; rewrite take_fixed_sfx by lia;
+      ifret; rewrite wrap64_small by lia; cbn [Z.of_nat Pos.of_succ_nat Pos.succ].
+    - destruct (Z.ltb_spec dlen (z + 8)); [reflexivity|].
+      atom. rewrite Eg. ev. rewrite slice_from_at by lia. ev.
+      destruct (Nat.ltb_spec (length (sfx' z)) 8); [lia|]. ev. rewrite (gconv_vint t) by exact Eg.
+      idxadd; reflexivity.
+    - destruct (Z.ltb_spec dlen (z + 4)); [reflexivity|].
+      atom. rewrite Eg. ev. rewrite slice_from_at by lia. ev.
+      destruct (Nat.ltb_spec (length (sfx' z)) 4); [lia|]. ev. rewrite (gconv_vint t) by exact Eg.
+      idxadd; reflexivity.
+  Qed.
+
+  Definition run_fixed64_var := run_fixed_var true.
+  Definition run_fixed32_var := run_fixed_var false.
+  Definition run_fixed64_field := run_fixed_field true.
+  Definition run_fixed32_field := run_fixed_field false.
+
+  Lemma take_fixed_inv k z n r : 0 <= z <= dlen -> take_fixed k (sfx' z) = Some (n, r) ->
+    r = sfx' (z + Z.of_nat k) /\ z + Z.of_nat k <= dlen /\ (n < 256 ^ N.of_nat k)%N.
+  Proof.
+    intros Hz E. pose proof (take_fixed_val _ _ _ _ E) as Hb. rewrite take_fixed_sfx in E by lia.
+    destruct (Z.ltb_spec dlen (z + Z.of_nat k)); [discriminate|]. injection E as _ <-. auto.
+  Qed.
+
+  Definition item_scalar_stmt (md : imode) (k : kind) : Prop :=
+    forall i f s oi en z ss u,
+    0 <= z <= dlen -> nth_error fs i = Some f -> nth_error ss i = Some s -> mode_ok md k f s oi ->
+    block' (u_item_scalar md i k) en (at_ z ss u) =
+    match dec_scalar k (sfx' z) with
+    | None => XDone Err
+    | Some (v, r) => XNext en (at_ (dlen - Z.of_nat (length r)) (putm fs md oi i v ss) u)
+    end.
+
+  Lemma item_KString md : item_scalar_stmt md KString.
+  Proof.
+    intros i f s oi en z ss u Hz Hf Hs Hm.
+    assert (Hi : (i < length ss)%nat) by (apply nth_error_Some; congruence).
+    unfold block, u_item_scalar. cbn [app].
+    atom. rewrite run_varint_var by side.
+    cbn [dec_scalar]. unfold take_len.
+    destruct (dec_varint (sfx' z)) as [[[raw m] r1]|] eqn:Ed; [|reflexivity].
+    destruct (dec_varint_sfx data z raw m r1 Hz Ed) as (-> & Hm1 & Hm2).
+    ev. atom. autorewrite with vals. lencheck.
+    rewrite sfx_len by lia.
+    destruct (s64 raw <? 0) eqn:E1; [reflexivity|].
+    destruct (dlen - (z + Z.of_nat m) <? s64 raw) eqn:E2; [reflexivity|].
+    destruct md; cbn [mode_ok] in Hm.
+    - rename Hm into Hsh.
+      atom. rewrite slice_at by lia. ev. idxset.
+      done_env. cbn [putm]. rewrite sfx_skipn, sfx_len by lia. apply at_eq; [lia|feq; lia].
+    - destruct Hm as [[p Hsh] Hx].
+      assert (Hpf : plain_field fs i = Some f) by (unfold plain_field; rewrite Hf, Hsh; reflexivity).
+      destruct Hx as [-> | [l ->]]; atom; rewrite slice_at by lia; ev; idxset;
+      done_env; cbn [putm]; rewrite sfx_skipn, sfx_len by lia; rewrite (nth_error_nth' ss i _ VNil Hs);
+      (apply at_eq; [lia|feq; lia]).
+    - destruct Hm as [Hsh Hx].
+      assert (Hpf : plain_field fs i = Some f) by (unfold plain_field; rewrite Hf, Hsh; reflexivity).
+      atom. rewrite slice_at by lia. ev. idxset.
+      done_env. cbn [putm]. rewrite sfx_skipn, sfx_len by lia. apply at_eq; [lia|feq; lia].
+  Qed.
+
+  Lemma item_varint md k : match k with KInt64 | KUint64 | KInt32 | KUint32 | KEnum => True | _ => False end ->
+    item_scalar_stmt md k.
+  Proof.
+    intros Hk i f s oi en z ss u Hz Hf Hs Hm.
+    assert (Hi : (i < length ss)%nat) by (apply nth_error_Some; congruence).
+    unfold block.
+    destruct k; try contradiction; unfold u_item_scalar; cbn [dec_scalar kind_gty];
+    (modes md Hm Hf fs i f;
+     [ atom; rewrite run_varint_var by side
+     | atom; rewrite run_varint_var by side
+     | atom; rewrite run_varint_var by side
+     | atom; erewrite run_varint_field; [|side ..] ];
+     (destruct (dec_varint (sfx' z)) as [[[raw m] r1]|] eqn:Ed; [|reflexivity]);
+     destruct (dec_varint_sfx data z raw m r1 Hz Ed) as (-> & Hm1 & Hm2);
+     ev; try atom; fin Hs).
+  Qed.
+
+  Lemma item_varint2 md k : match k with KBool | KSint32 | KSint64 => True | _ => False end ->
+    item_scalar_stmt md k.
+  Proof.
+    intros Hk i f s oi en z ss u Hz Hf Hs Hm.
+    assert (Hi : (i < length ss)%nat) by (apply nth_error_Some; congruence).
+    unfold block.
+    destruct k; try contradiction; unfold u_item_scalar; cbn [dec_scalar kind_gty app];
+    (modes md Hm Hf fs i f; atom; rewrite run_varint_var by side;
+     (destruct (dec_varint (sfx' z)) as [[[raw m] r1]|] eqn:Ed; [|reflexivity]);
+     destruct (dec_varint_sfx data z raw m r1 Hz Ed) as (-> & Hm1 & Hm2);
+     ev; repeat atom; fin Hs).
+  Qed.
+
+  Lemma to_pat64_small n : (n < two64)%N -> to_pat 64 (Z.of_N n) = n.
+  Proof. intro H. rewrite to_pat_ofN. change (pow2 64) with two64. apply N.mod_small. exact H. Qed.
+  Lemma to_pat32_small n : (n < two32)%N -> to_pat 32 (Z.of_N n) = n.
+  Proof. intro H. rewrite to_pat_ofN. change (pow2 32) with two32. apply N.mod_small. exact H. Qed.
+
+  Lemma item_fixed md k : match k with KFixed64 | KSfixed64 | KFixed32 | KSfixed32 | KDouble | KFloat => True | _ => False end ->
+    item_scalar_stmt md k.
+  Proof.
+    intros Hk i f s oi en z ss u Hz Hf Hs Hm.
+    assert (Hi : (i < length ss)%nat) by (apply nth_error_Some; congruence).
+    unfold block.
+    destruct k; try contradiction; unfold u_item_scalar; cbn [dec_scalar kind_gty app];
+    (modes md Hm Hf fs i f; atom;
+     try (rewrite <- (app_nil_r (u_fixed64 (TgField _) _))); try (rewrite <- (app_nil_r (u_fixed32 (TgField _) _)));
+     first [ erewrite run_fixed64_var; [|side ..] | erewrite run_fixed32_var; [|side ..]
+           | erewrite run_fixed64_field; [|side ..] | erewrite run_fixed32_field; [|side ..] ];
+     match goal with |- context [take_fixed ?k (sfx' z)] =>
+       destruct (take_fixed k (sfx' z)) as [[n r]|] eqn:Et; [|reflexivity];
+       destruct (take_fixed_inv k z n r Hz Et) as (-> & Hz8 & Hb) end;
+     try rewrite pow256_8 in Hb; try rewrite pow256_4 in Hb;
+     ev; repeat atom; fin Hs;
+     try (rewrite u64_small by assumption); try (rewrite u32_small by assumption);
+     try (rewrite to_pat64_small by assumption); try (rewrite to_pat32_small by assumption); try reflexivity).
+  Qed.
+
+  Lemma go_copy_fresh n bs : length bs = n -> go_copy (repeat x00 n) bs = bs.
+  Proof.
+    intro H. unfold go_copy. rewrite repeat_length, H, Nat.min_id. rewrite <- H at 1. rewrite firstn_all.
+    rewrite skipn_all2 by (rewrite repeat_length; lia). apply app_nil_r.
+  Qed.
+  Lemma set_last_snoc l x y : set_last (l ++ [x]) y = l ++ [y].
+  Proof. induction l as [|h t IH]; [reflexivity|]. cbn [app set_last]. rewrite IH. destruct (t ++ [x]) eqn:E; [destruct t; discriminate|reflexivity]. Qed.
+  Lemma firstn_sfx_len z L : 0 <= z <= dlen -> 0 <= L <= dlen - z -> length (firstn (Z.to_nat L) (sfx' z)) = Z.to_nat L.
+  Proof. intros Hz HL. rewrite firstn_length. pose proof (sfx_len data z Hz). lia. Qed.
+
+  Lemma item_KBytes md : item_scalar_stmt md KBytes.
+  Proof.
+    intros i f s oi en z ss u Hz Hf Hs Hm.
+    assert (Hi : (i < length ss)%nat) by (apply nth_error_Some; congruence).
+    unfold block, u_item_scalar. cbn [app].
+    atom. rewrite run_varint_var by side.
+    cbn [dec_scalar]. unfold take_len.
+    destruct (dec_varint (sfx' z)) as [[[raw m] r1]|] eqn:Ed; [|reflexivity].
+    destruct (dec_varint_sfx data z raw m r1 Hz Ed) as (-> & Hm1 & Hm2).
+    ev. autorewrite with vals. lencheck.
+    rewrite sfx_len by lia.
+    destruct (Z.ltb_spec (s64 raw) 0) as [|E1]; [reflexivity|].
+    destruct (Z.ltb_spec (dlen - (z + Z.of_nat m)) (s64 raw)) as [|E2]; [reflexivity|].
+    remember (z + Z.of_nat m) as z1 eqn:Ez1. remember (s64 raw) as L eqn:EL.
+    assert (HL : length (firstn (Z.to_nat L) (sfx' z1)) = Z.to_nat L) by (apply firstn_sfx_len; lia).
+    modes md Hm Hf fs i f; cbn [app].
+    - atom. rewrite wrap64_small by lia. destruct (Z.ltb_spec (z1 + L - z1) 0); [lia|]. ev.
+      atom. rewrite slice_at by lia. ev. replace (z1 + L - z1) with L by lia. rewrite go_copy_fresh by exact HL.
+      atom. idxset. fin Hs.
+    - atom. rewrite wrap64_small by lia. destruct (Z.ltb_spec (z1 + L - z1) 0); [lia|]. ev.
+      atom. rewrite slice_at by lia. ev. replace (z1 + L - z1) with L by lia. cbn [list_append last]. rewrite go_copy_fresh by exact HL.
+      cbn [set_last]. idxset. fin Hs.
+    - atom. rewrite wrap64_small by lia. destruct (Z.ltb_spec (z1 + L - z1) 0); [lia|]. ev.
+      atom. rewrite slice_at by lia. ev. replace (z1 + L - z1) with L by lia. cbn [list_append]. rewrite last_last. rewrite go_copy_fresh by exact HL.
+      rewrite set_last_snoc. idxset. fin Hs.
+    - atom. rewrite slice_at by lia. ev. replace (z1 + L - z1) with L by lia.
+      remember (firstn (Z.to_nat L) (sfx' z1)) as bs eqn:Ebs.
+      destruct (Hx eq_refl) as [-> | [b0 ->]].
+      + destruct bs as [|b1 bs'].
+        * rewrite run_if. ev. hyps. ev. unfold block. atom. rewrite run_nil. ev. rewrite env_restore_refl.
+          idxset. fin Hs.
+        * rewrite run_if. ev. hyps. ev. idxset. fin Hs.
+      + rewrite run_if. ev. hyps. ev. idxset. fin Hs.
+  Qed.
+
+  Lemma item_scalar md k : item_scalar_stmt md k.
+  Proof.
+    destruct k; first [apply item_KString | apply item_KBytes | apply item_varint; exact I | apply item_varint2; exact I
+                      | apply item_fixed; exact I].
+  Qed.
+
+  (* ---- message items *)
+  Hypothesis Hchild_nil : forall m mdm bs, get_msg sch m = Some mdm -> child m VNil bs = child m (empty_msg mdm) bs.
+
+  Definition target_of (md : imode) (s : val) : val :=
+    match md with ISing => s | IRep => VNil | IOneof => match s with VSome p => p | _ => VNil end end.
+  Definition mode_ok_msg (md : imode) (f : field) (s : val) (oi : nat) : Prop :=
+    match md with
+    | ISing => f_shape f = Singular /\ (s = VNil \/ exists ss' u', s = VMsg ss' u')
+    | IRep => (exists p, f_shape f = Rep p) /\ (s = VNil \/ exists l, s = VList l)
+    | IOneof => f_shape f = Member oi /\ (s = VNil \/ s = VSome VNil \/ exists ss' u', s = VSome (VMsg ss' u'))
+    end.
+
+  Lemma run_msg_header b en z ss u :
+    0 <= z <= dlen ->
+    run' (u_msg_header ++ b) en (at_ z ss u) =
+    match dec_varint (sfx' z) with
+    | None => XDone Err
+    | Some (raw, m, _) =>
+      if s64 raw <? 0 then XDone Err
+      else if dlen - (z + Z.of_nat m) <? s64 raw then XDone Err
+      else run' b ((UvPostIndex, LV (VInt (z + Z.of_nat m + s64 raw))) :: (UvMsglen, LV (VInt (s64 raw))) :: en)
+                (at_ (z + Z.of_nat m) ss u)
+    end.
+  Proof.
+    intro Hz. unfold u_msg_header. rewrite <- app_assoc. cbn [app].
+    atom. rewrite run_varint_var by side.
+    destruct (dec_varint (sfx' z)) as [[[raw m] r1]|] eqn:Ed; [|reflexivity].
+    destruct (dec_varint_sfx data z raw m r1 Hz Ed) as (-> & Hm1 & Hm2).
+    ev. autorewrite with vals. lencheck. reflexivity.
+  Qed.
+
+  Lemma item_msg md i m mdm f s oi en z ss u :
+    0 <= z <= dlen -> nth_error fs i = Some f -> f_ty f = TMsg m -> get_msg sch m = Some mdm ->
+    nth_error ss i = Some s -> mode_ok_msg md f s oi ->
+    block' (u_item_msg md i m) en (at_ z ss u) =
+    match dec_item child (TMsg m) (target_of md s) (sfx' z) with
+    | Ok (v, r) => XNext en (at_ (dlen - Z.of_nat (length r)) (putm fs md oi i v ss) u)
+    | Err => XDone Err | Panic => XDone Panic | OutOfFuel => XDone OutOfFuel
+    end.
+  Proof.
+    intros Hz Hf Hty Hg Hs Hm.
+    assert (Hi : (i < length ss)%nat) by (apply nth_error_Some; congruence).
+    unfold block, u_item_msg. rewrite run_msg_header by lia.
+    cbn [dec_item]. unfold take_len.
+    destruct (dec_varint (sfx' z)) as [[[raw m0] r1]|] eqn:Ed; [|reflexivity].
+    destruct (dec_varint_sfx data z raw m0 r1 Hz Ed) as (-> & Hm1 & Hm2).
+    rewrite sfx_len by lia.
+    destruct (Z.ltb_spec (s64 raw) 0) as [|E1]; [reflexivity|].
+    destruct (Z.ltb_spec (dlen - (z + Z.of_nat m0)) (s64 raw)) as [|E2]; [reflexivity|].
+    remember (z + Z.of_nat m0) as z1 eqn:Ez1. remember (s64 raw) as L eqn:EL.
+    destruct md; cbn [mode_ok_msg target_of app] in *.
+    - (* oneof *) destruct Hm as [Hsh Hx].
+      atom. rewrite Hg. ev. atom.
+      destruct Hx as [-> | [-> | (ss' & u' & ->)]]; ev.
+      + atom. rewrite slice_at by lia. ev. unfold empty_msg at 1. ev. fold (empty_msg mdm).
+        replace (z1 + L - z1) with L by lia. rewrite (Hchild_nil m mdm) by exact Hg.
+        destruct (child m (empty_msg mdm) _) as [v| | |]; ev; try reflexivity.
+        atom. idxset. fin Hs.
+      + atom. rewrite slice_at by lia. ev. unfold empty_msg at 1. ev. fold (empty_msg mdm).
+        replace (z1 + L - z1) with L by lia. rewrite (Hchild_nil m mdm) by exact Hg.
+        destruct (child m (empty_msg mdm) _) as [v| | |]; ev; try reflexivity.
+        atom. idxset. fin Hs.
+      + atom. rewrite slice_at by lia. ev.
+        replace (z1 + L - z1) with L by lia.
+        destruct (child m (VMsg ss' u') _) as [v| | |]; ev; try reflexivity.
+        atom. idxset. fin Hs.
+    - (* repeated *) destruct Hm as [[p Hsh] Hx].
+      assert (Hpf : plain_field fs i = Some f) by (unfold plain_field; rewrite Hf, Hsh; reflexivity).
+      rewrite (Hchild_nil m mdm) by exact Hg.
+      destruct Hx as [-> | [l ->]].
+      + atom. rewrite Hg. ev. atom. rewrite slice_at by lia. ev. cbn [list_append last]. unfold empty_msg at 1. ev. fold (empty_msg mdm).
+        replace (z1 + L - z1) with L by lia.
+        destruct (child m (empty_msg mdm) _) as [v| | |]; ev; try reflexivity.
+        cbn [set_last]. idxset. fin Hs.
+      + atom. rewrite Hg. ev. atom. rewrite slice_at by lia. ev. cbn [list_append]. rewrite last_last. unfold empty_msg at 1. ev. fold (empty_msg mdm).
+        replace (z1 + L - z1) with L by lia.
+        destruct (child m (empty_msg mdm) _) as [v| | |]; ev; try reflexivity.
+        rewrite set_last_snoc. idxset. fin Hs.
+    - (* singular *) destruct Hm as [Hsh Hx].
+      assert (Hpf : plain_field fs i = Some f) by (unfold plain_field; rewrite Hf, Hsh; reflexivity).
+      rewrite run_if. ev. hyps. ev.
+      destruct Hx as [-> | (ss' & u' & ->)]; ev.
+      + unfold block. atom. rewrite Hg. ev. rewrite run_nil. ev. rewrite env_restore_refl.
+        atom. rewrite slice_at by lia. ev. unfold empty_msg at 1. ev. fold (empty_msg mdm).
+        replace (z1 + L - z1) with L by lia. rewrite (Hchild_nil m mdm) by exact Hg.
+        destruct (child m (empty_msg mdm) _) as [v| | |]; ev; try reflexivity.
+        idxset. fin Hs.
+      + atom. rewrite slice_at by lia. ev.
+        replace (z1 + L - z1) with L by lia.
+        destruct (child m (VMsg ss' u') _) as [v| | |]; ev; try reflexivity.
+        idxset. fin Hs.
+  Qed.
+End Exec3.
